@@ -72,6 +72,23 @@ def gen_cases(rng, tier):
             "checkpointing": rng.random() < 0.6,
             "p_fail": rng.choice([0, 0, 0.03]),
         }
+    # PASHA, long runs with several workers and rung levels far apart: most reports lie between two rung levels, where the noise
+    # estimate (epsilon) still moves and the rankings of the two top rungs are compared again
+    k = 0
+    while k < (36 if tier == "quick" else 120):
+        c = gen_ctor(rng, "pasha")
+        c["brackets"] = 1
+        c["max_resource_attr"] = rng.random() < 0.6
+        if "reduction_factor" in c:
+            c.update({"grace_period": rng.choice([1, 2]), "reduction_factor": rng.choice(["3", "4", "7/2", "9/4"]),
+                      "max_t": rng.choice([27, 30, 81])})
+        try:
+            hb.make_scheduler(c)
+        except AssertionError:
+            continue
+        k += 1
+        yield {"ctor": c, "seed": rng.randrange(10 ** 9), "n_workers": rng.randint(3, 6), "max_events": 300,
+               "style": rng.choice(["noisy", "general", "general"]), "checkpointing": rng.random() < 0.5, "p_fail": 0}
 
 
 def corpus():
